@@ -177,10 +177,14 @@ pub fn gen_source(rng: &mut Prng, kind: Kind) -> SourceSpec {
     SourceSpec { zero_run: 0, prefix, key: rng.u64() | 1, fault: None }
 }
 
-/// A source that stays at zero for tens of thousands of blocks before it delivers something else
+/// A source that stays at zero for thousands to hundreds of thousands of blocks before it delivers something else
 /// (a stuck-at-zero entropy source that recovers). Only XorShiftRng redraws, so only it reads the run.
 pub fn gen_long_zero_source(rng: &mut Prng) -> SourceSpec {
-    SourceSpec { zero_run: 16 * rng.range(150_000, 400_000) as usize, prefix: rng.bytes(16), key: rng.u64() | 1, fault: None }
+    // log-uniform between 2 000 and 500 000 blocks: where a recursion-per-block overflows the stack depends on the
+    // frame size, which differs between build configurations - the lengths have to straddle every threshold
+    let e = rng.range(11, 18);
+    let blocks = (1u64 << e) + rng.below(1u64 << e);
+    SourceSpec { zero_run: 16 * blocks.min(500_000) as usize, prefix: rng.bytes(16), key: rng.u64() | 1, fault: None }
 }
 
 /// For the linear generators: a seed crafted so that, after `pre_steps` native steps followed by
